@@ -14,6 +14,7 @@ let dispatch inp obs =
   | k :: _ when String.length k >= 3 && String.sub k 0 3 = "C17" -> C17.run inp obs
   | k :: _ when String.length k >= 3 && String.sub k 0 3 = "C15" -> C15.run inp obs
   | "C05" :: _ -> C05.run inp obs
+  | ("C14I" | "C14O") :: _ -> C14.run inp obs
   | _ -> (Some "unknown case kind", None)
 
 let () =
